@@ -32,7 +32,7 @@ RULE = ("util level (autoarray.util.transformer / inversion_interferometer_util 
         "integer preload tables incl. 0 x K tables; image_via_jit_from with n_pixels <, =, > grid rows; batches come in sibling pairs "
         "with identical shapes; every 2-D argument as C-ordered, Fortran-ordered or a strided view; every function is called twice "
         "(results must be identical) and every argument must be unchanged afterwards. All comparisons are RELATIVE to the l1 norm "
-        "of the linear argument (1e-9). Budgets: quick 36 util batches (8 ops each) + 32 geometries + 28 histories; thorough 400 + 500 + 280. "
+        "of the linear argument (1e-9). Budgets: quick 44 util batches (8 ops each) + 40 geometries + 28 histories; thorough 440 + 500 + 280. "
         "Class level: Mask2D of shape up to 5x5 (non-square, 0..16 unmasked pixels incl. outer ring, fully masked, single pixel), "
         "pixel scales (sy,sx) in {1/4..3} independently, origins k/4, baselines up to 2e5 wavelengths (phases of several turns), "
         "TransformerDFT(preload on/off).visibilities_from / image_from / transform_mapping_matrix with slim- and native-stored "
@@ -40,6 +40,21 @@ RULE = ("util level (autoarray.util.transformer / inversion_interferometer_util 
         "objects with/without regularization, explicit or config-default diagonal value).data_vector / curvature_matrix / "
         "operated_mapping_matrix (read in both orders, twice, and through a second inversion), aa.Inversion factory, plus a SIBLING "
         "inversion through the same transformer object (rows of M / data / noise rotated, regularization flags flipped). "
+        "RARE STATES are a regular part of every stream (all value vectors come from one generator): images / matrix columns / "
+        "real and imaginary parts of visibilities, data and reconstructions that cancel exactly (sum == 0.0 with non-zero l1 norm: "
+        "+a/-a dipoles and generic signed vectors closed by minus their sum), constant vectors, vectors without a positive entry, "
+        "all-zero, single non-zero entry; purely real / purely imaginary / im = -re / im = re visibilities; matrices with an all-zero "
+        "row, a column equal to or minus another, every row cancelling, one-hot 0/1 matrices; noise maps all ones / constant / "
+        "constant with real != imaginary; baseline sets all zero / u = 0 / v = 0 / u = v / +- pairs; util grids on one axis / one point "
+        "repeated / point-symmetric; tables with a zero baseline column or imaginary = -real. INPUT KINDS: the same values as int64 / "
+        "float32 / complex64 / bool arrays (one narrow argument per call, only where every value survives the round trip), "
+        "Visibilities built from a complex128 / complex64 array, a (K,2) float array, a list of pairs, a list of complex, as a "
+        "VisibilitiesNoiseMap or a user subclass; Mask2D from an array / list / inverted array + invert=True / all_false / scalar "
+        "pixel scale / origin omitted / user subclass; user subclasses of Array2D, TransformerDFT, Interferometer; preload_transform "
+        "omitted; MockLinearObjFuncList objects. ENTRY POINTS added: aa.Interferometer(transformer_class=TransformerDFT) as the "
+        "inversion's dataset, SimulatorInterferometer(noise off).via_image_from, mapped_reconstructed_data_dict (after the solve; "
+        "F, D, T re-read after it), settings / preloads omitted (shared default objects) or one caller-owned object for all "
+        "inversions of the case; every default-argument object of these entry points is fingerprinted before and after each case. "
         "Histories (one Coq case each, every step compared with the model independently): 2-4 TransformerDFT objects alive in one "
         "interpreter that differ in exactly ONE construction ingredient (mask shifted by one pixel / permuted / one pixel moved / "
         "point-reflected / reshaped with the same row-major bytes / transposed / one pixel more or fewer, pixel scales swapped, origin "
@@ -921,12 +936,11 @@ def run_class(aa, inp, base):
             if srec is not None and bool(np.all(np.isfinite(srec))):
                 Tl = [np.array(x) for x in inv.operated_mapping_matrix_list]
                 ok = ok and same(np.hstack(Tl), T) and len(dd) == len(set(id(o) for o in objs))
-                lo = 0
-                for o, ob, Tk in zip(inp["objs"], objs, Tl):
-                    sk = srec[lo:lo + o["P"]]; lo += o["P"]
-                    if sum(1 for x in objs if x is ob) == 1:
-                        Vk = dd[ob]; ok = ok and isinstance(Vk, aa.Visibilities)
-                        extra.append(f"(KRecon {ccm(cmout(Tk))} {cqv(rvout(sk))} {ccv(cvout(np.array(Vk)))})")
+                Vs = [dd[ob] for ob in objs]
+                ok = ok and all(isinstance(V_, aa.Visibilities) for V_ in Vs) and srec.shape == (sum(o["P"] for o in inp["objs"]),)
+                cobjs = clist([ctup([cnat(o["P"]), cqm(Fm(o["M"])), cbool(o["reg"])]) for o in inp["objs"]])
+                extra.append(f"(KInvRecon {Pi} {G} {U} {cbool(pre_model)} {cobjs} {cqv(rvout(srec))} "
+                             f"{clist([ccv(cvout(np.array(V_))) for V_ in Vs])})")
                 # F and D re-read AFTER the solve (curvature_reg_matrix adds the regularization matrix in place)
                 for a, b in ((D, inv.data_vector), (Fm_, inv.curvature_matrix), (T, inv.operated_mapping_matrix)):
                     if not same(a, np.array(b)): ok = False
